@@ -202,9 +202,24 @@ CHECKS.update({
         design="0.3 / 8 C03"),
 })
 
+CHECKS.update({
+    "C15": dict(
+        text="Layer 1 (contract proof on the real shorthand functions, Django / SQLAlchemy calls uninterpreted): on every path the value "
+             "returned is the incoming query object extended by exactly the calls the statement names: Django [annotate(**annotations)]."
+             "filter(where); Core query.filter(where); ORM query.join(j) for the required joins not already joined (neither str(j) nor "
+             "str(j.key) among the existing joins), in order, then .filter(where); the visitor is built for the incoming query's model / "
+             "table and the text is tokenised, parsed and translated once; every SQL function class of functions_ext registers under the "
+             "package 'odata'. Layer 2 (bounded, labelled, not counted): base queries x filters executed on in-memory SQLite; func registry "
+             "before / after import in fresh processes.",
+        note="What filter / join / annotate do with the receiver's existing state is the ORMs' documented behaviour (assumed; bounded family). "
+             "The existing-join test is an uninterpreted predicate (SQLAlchemy's private _setup_joins is out of reach); the ORM join loop is "
+             "unrolled for 0-2 required joins. Designed as not applicable (DESIGN 9); claimed in this narrower form (DESIGN 0.3).",
+        technique="contracts on the real shorthand functions (pyvc, external calls uninterpreted, term comparison); finite check; bounded execution",
+        design="0.3 / 9 C15"),
+})
+
 NOT_APPLICABLE = {
     "C04": "join kind, join promotion under `or`, EXISTS correlation and many-to-many expansion are ORM-internal planning decisions (DESIGN section 9)",
-    "C15": "filter()/join() composition, join detection and the func registry are SQLAlchemy/Django behaviour outside any repo function's contract (DESIGN section 9)",
 }
 
 PENDING = {
